@@ -26,8 +26,8 @@ Proof.
     destruct (existsb _ _); [intros [= <-]; reflexivity|discriminate].
   - unfold clone. destruct (clone_nodes _ _ _ _) as [[[a b] c]|]; [discriminate|intros [= <-]; reflexivity].
   - unfold roundtrip. destruct (rt_domain h); simpl; [|intros [= <-]; reflexivity].
-    destruct (s_ir h <? _); [discriminate|]. destruct (ser_ok h); simpl; [|intros [= <-]; reflexivity].
-    destruct (rt_nodes _ _ _) as [a [[b c] d]]. discriminate.
+    destruct (ser_ok h); simpl; [|intros [= <-]; reflexivity].
+    destruct (rt_nodes _ _ _ _) as [a [[b c] d]]. discriminate.
 Qed.
 
 (* ------------------------------------------------------------------ invalid requests are rejected *)
@@ -119,17 +119,32 @@ Lemma ser_follows_rename h v nm sp :
   sp_val sp = v -> ser_spec (rename h v nm) sp = (nm, sp_dev sp, map (fun d => (sd_axis d, sd_shards d)) (sp_dims sp)).
 Proof. intros E. unfold ser_spec. rewrite E, name_of_rename_same. reflexivity. Qed.
 
-(* round trip below IR 11: every annotation and configuration is dropped *)
-Lemma roundtrip_old_ir h h' :
-  rt_domain h = true -> s_ir h < MULTI_DEVICE_SUPPORTED_VERSION -> roundtrip h = (h', Ok tt) ->
-  s_cfgs h' = [] /\ Forall (fun p => n_dc (snd p) = []) (s_nodes h') /\ DevInv h'.
+(* round trip below IR 11: the model configurations are dropped, and so are the annotations of every node of
+   the main graph and of the function (scopes 0 and 1) *)
+Lemma rt_nodes_old_ir h : forall nodes acc nodes' acc',
+  s_ir h < MULTI_DEVICE_SUPPORTED_VERSION -> rt_nodes h [] nodes acc = (nodes', acc') ->
+  Forall (fun p => node_scope h (fst p) < 2 -> n_dc (snd p) = []) nodes'.
 Proof.
-  intros D Hir. unfold roundtrip. rewrite D. simpl.
-  assert (E : s_ir h <? MULTI_DEVICE_SUPPORTED_VERSION = true) by lia. rewrite E. intros [= <-]. simpl.
-  assert (F : Forall (fun p : Z * node => n_dc (snd p) = [])
-                (map (fun p : Z * node => (fst p, with_dc (snd p) [])) (s_nodes h))).
-  { rewrite Forall_map. apply Forall_forall. intros p _. reflexivity. }
-  split; [reflexivity|]. split; [exact F|]. apply inv_initial; [reflexivity | exact F].
+  induction nodes as [|[n nd] r IH]; intros acc nodes' acc' Hir R; simpl in R.
+  - inversion R; subst. constructor.
+  - destruct (rt_keep h n) eqn:K.
+    + destruct (rt_dcs h [] (node_scope h n) (n_dc nd) acc) as [dcs acc1].
+      destruct (rt_nodes h [] r acc1) as [r' acc2] eqn:Rr. inversion R; subst.
+      constructor; [|eapply IH; eassumption]. simpl. intros Hs. unfold rt_keep in K.
+      apply orb_true_iff in K. destruct K as [K|K]; lia.
+    + destruct (rt_nodes h [] r acc) as [r' acc2] eqn:Rr. inversion R; subst.
+      constructor; [|eapply IH; eassumption]. simpl. reflexivity.
+Qed.
+
+Lemma roundtrip_old_ir h h' :
+  s_ir h < MULTI_DEVICE_SUPPORTED_VERSION -> roundtrip h = (h', Ok tt) ->
+  s_cfgs h' = [] /\ Forall (fun p => node_scope h (fst p) < 2 -> n_dc (snd p) = []) (s_nodes h').
+Proof.
+  intros Hir. unfold roundtrip. destruct (rt_domain h); simpl; [|discriminate].
+  destruct (ser_ok h); simpl; [|discriminate].
+  assert (E : s_ir h <? MULTI_DEVICE_SUPPORTED_VERSION = true) by lia. rewrite E.
+  destruct (rt_nodes h [] (s_nodes h) ([], s_nextv h, s_nextc h)) as [nodes [[names nv] nc]] eqn:R.
+  intros [= <-]. simpl. split; [reflexivity|]. eapply rt_nodes_old_ir; eassumption.
 Qed.
 
 (* ------------------------------------------------------------------ examples: the hypotheses are satisfiable *)
@@ -139,7 +154,7 @@ Definition ex_z := mkV 2 (Some 1).
 Definition ex_h0 : state :=
   mkSt [(0, [120]); (1, [121]); (2, [122])]
        [(0, mkN [Some ex_x; None] [ex_y] []); (1, mkN [Some ex_y; Some ex_x] [ex_z] [])]
-       [ex_x] [] 3 0 11.
+       [ex_x] [] 3 0 11 (mkSc 1 [] []).
 Definition ex_c := mkC 0 [99] 2.
 Definition ex_ops : list op :=
   [OAddCfg [99] 2;
@@ -158,7 +173,9 @@ Proof. apply inv_initial; [reflexivity|]. repeat constructor. Qed.
 
 Example ex_ops_ok : ops_ok ex_h0 ex_ops.
 Proof.
-  unfold ex_ops. simpl. repeat split; auto; try (left; reflexivity); unfold devs_ok; repeat constructor; simpl; lia.
+  unfold ex_ops. simpl.
+  repeat split; auto; try (left; reflexivity); try (unfold MULTI_DEVICE_SUPPORTED_VERSION; lia);
+    try (unfold devs_ok; repeat constructor; simpl; lia).
 Qed.
 
 (* after the first five ops node 0 shards x on two axes and node 1 shards y; the check is silent *)
@@ -212,4 +229,92 @@ Proof.
   destruct (resize_inputs_nd nd k) as [nd'|e] eqn:R; [|discriminate]. intros [= <-].
   exists nd, nd'. split; [reflexivity|]. split; [eapply get_set_node_same; exact G|].
   split; [exact (drop_resize_inputs _ _ _ R)|]. intros m Hm. apply get_set_node_other. exact Hm.
+Qed.
+
+(* ------------------------------------------------------------------ nested scopes *)
+(* what a successful lookup through the scope stack means: the value is declared, under that name, in the
+   innermost enclosing scope that declares the name at all *)
+Inductive resolves_at (h : state) (nm : str) : Z -> valobj -> Prop :=
+| res_here s v : In v (decl h s) -> name_of h v = nm -> resolves_at h nm s v
+| res_up s p v : (forall w, In w (decl h s) -> name_of h w <> nm) -> parent_of h s = Some p ->
+                 resolves_at h nm p v -> resolves_at h nm s v.
+
+Lemma resolve_chain_sound h nm : forall fuel s v, resolve_chain h fuel s nm = Some v -> resolves_at h nm s v.
+Proof.
+  induction fuel as [|f IH]; intros s v; simpl;
+    destruct (find (fun x => str_eqb (name_of h x) nm) (decl h s)) as [x|] eqn:E.
+  - intros [= <-]. apply find_some in E. destruct E as [A B]. apply str_eqb_eq in B. apply res_here; assumption.
+  - discriminate.
+  - intros [= <-]. apply find_some in E. destruct E as [A B]. apply str_eqb_eq in B. apply res_here; assumption.
+  - destruct (parent_of h s) as [p|] eqn:P; [|discriminate]. intros R. eapply res_up; [|exact P|apply IH; exact R].
+    intros w Hw Hn. pose proof (find_none _ _ E w Hw) as F. simpl in F.
+    assert (str_eqb (name_of h w) nm = true) by (apply str_eqb_eq; exact Hn). congruence.
+Qed.
+
+Lemma resolve_sound h s nm v : resolve h s nm = Some v -> resolves_at h nm s v.
+Proof. apply resolve_chain_sound. Qed.
+
+(* main graph: inputs x "x", w "w"; node 0 (If-like) has a body (scope 2) with node 1: inputs [w] captured from
+   the main graph, output l named "x" (shadows the outer x inside the body); node 2 (body): input l, output m;
+   node 3 has a body (scope 3) nested in scope 2 with node 4: inputs [w; l] captured from two levels up *)
+Definition nx := mkV 0 (Some 2).
+Definition nw := mkV 1 (Some 2).
+Definition nl := mkV 2 (Some 1).
+Definition nm_ := mkV 3 None.
+Definition nq := mkV 4 None.
+Definition ny := mkV 5 None.
+Definition nz := mkV 6 None.
+Definition nest_h0 : state :=
+  mkSt [(0, [120]); (1, [119]); (2, [120]); (3, [109]); (4, [113]); (5, [121]); (6, [122])]
+       [(0, mkN [Some nx] [ny] []); (1, mkN [Some nw] [nl] []); (2, mkN [Some nl] [nm_] []);
+        (3, mkN [] [nz] []); (4, mkN [Some nw; Some nl] [nq] [])]
+       [nx; nw] [] 7 0 11 (mkSc 2 [(1, 2); (2, 2); (3, 2); (4, 3)] [(2, 0); (3, 2)]).
+Definition nest_c := mkC 0 [99] 2.
+Definition nest_ops : list op :=
+  [OAddCfg [99] 2;
+   OShard 1 nw nest_c (-1) 2 [0; 1] None;     (* captured outer value *)
+   OShard 1 nl nest_c 0 2 [] None;            (* local value whose name shadows the outer "x" *)
+   OShard 2 nl nest_c 0 2 [1] (Some 1);
+   OShard 4 nw nest_c 1 2 [] None;            (* captured from two levels up *)
+   OShard 4 nl nest_c 0 2 [] None;            (* captured from the enclosing body *)
+   OShard 0 nx nest_c 0 2 [] None].           (* the outer "x" itself, on the main-graph node *)
+
+Example nest_resolution :
+  let h := run nest_h0 nest_ops in
+  resolve h 2 [120] = Some nl /\ resolve h 3 [120] = Some nl /\ resolve h 0 [120] = Some nx
+  /\ resolve h 3 [119] = Some nw /\ resolve h 0 [109] = None /\ rt_domain h = true /\ check h = [].
+Proof. vm_compute. repeat split. Qed.
+
+Example nest_inv : DevInv (run nest_h0 nest_ops).
+Proof.
+  apply inv_reachable.
+  - apply inv_initial; [reflexivity|]. repeat constructor.
+  - simpl. repeat split; auto; try (left; reflexivity); unfold devs_ok; repeat constructor; simpl; lia.
+Qed.
+
+(* round trip of the nested model: every reference resolves to the very object (also after a clone) *)
+Example nest_roundtrip :
+  let h := run nest_h0 nest_ops in
+  roundtrip h = (h, Ok tt) /\
+  (let h2 := fst (clone h) in snd (clone h) = Ok tt /\ roundtrip h2 = (h2, Ok tt) /\ check h2 = []).
+Proof. vm_compute. repeat split. Qed.
+
+(* Observation outside the property's quantifier (it speaks of round trips at IR >= 11): below IR 11 the gate is
+   not applied inside subgraph bodies, so a nested node keeps its annotation while the model's configurations
+   are dropped — the reference comes back dangling and the library's check reports it. *)
+Definition nest_h0_old : state :=
+  mkSt (s_names nest_h0) (s_nodes nest_h0) (s_gin nest_h0) [] 7 0 10 (s_sc nest_h0).
+Lemma old_ir_nested_dangles :
+  exists h, DevInv h /\ s_ir h < MULTI_DEVICE_SUPPORTED_VERSION /\ snd (roundtrip h) = Ok tt
+            /\ ~ DevInv (fst (roundtrip h)) /\ check (fst (roundtrip h)) = [(3, 1, 0); (10, 1, 0); (10, 1, 1)].
+Proof.
+  exists (run nest_h0_old (firstn 2 nest_ops)). split; [|split; [|split; [|split]]].
+  - apply inv_reachable.
+    + apply inv_initial; [reflexivity|]. repeat constructor.
+    + simpl. repeat split; auto; try (left; reflexivity). unfold devs_ok. repeat constructor; simpl; lia.
+  - vm_compute. reflexivity.
+  - vm_compute. reflexivity.
+  - intros [_ Hn]. vm_compute in Hn. inversion Hn as [|? ? _ Hn2]; subst. inversion Hn2 as [|? ? Hnd _]; subst.
+    inversion Hnd as [|? ? [Hc _] _]; subst. exact Hc.
+  - vm_compute. reflexivity.
 Qed.
